@@ -342,6 +342,18 @@ func checkC10(c *Ctx) {
 			}
 		}
 	}
+	// methods whose body holds no executable statement at all (only nested definitions), or ends
+	// without 输出: the call must still yield an element
+	for bi, body := range []string{"如何内？\n\t\t输出 1", "定义内型：\n\t\t其甲 = 1", "如何内？\n\t\t输出 1\n\t定义内型：\n\t\t其甲 = 1", "令局 = 1", "如果 假：\n\t\t输出 1", "每当 假：\n\t\t输出 1", "以项遍历【】：\n\t\t输出 1", "注：空"} {
+		for _, cons := range consumers {
+			src := "定义壳：\n\t其内 = 0\n如何新建壳？\n\t输入值\n\t其内 = 值\n如何试？\n\t输入参\n\t" + body + "\n" + cons + "\n（显示：“after”）\n"
+			addProg(fmt.Sprintf("fnresult-nobody/%d", bi), src, Num(1), List(Num(1), Num(2)))
+			msrc := "定义壳：\n\t其内 = 0\n如何新建壳？\n\t输入值\n\t其内 = 值\n定义器：\n\t其数 = 1\n\t如何试？\n\t\t输入参\n\t\t" + strings.ReplaceAll(body, "\n\t", "\n\t\t") + "\n令机 = （新建器）\n" + strings.ReplaceAll(cons, "（试：甲）", "以机（试：甲）") + "\n（显示：“after”）\n"
+			if !strings.Contains(cons, "（试：（试") && !strings.Contains(cons, "以（试") {
+				addProg(fmt.Sprintf("methodresult-nobody/%d", bi), msrc, Num(1), List(Num(1), Num(2)))
+			}
+		}
+	}
 	// format strings x argument lists (crash freedom; semantics are C14's)
 	tmpls := []string{"{}", "{#}", "{#.2}", "{#+}", "{#.3%}", "{#.2E}", "{", "}", "{{}}", "{#.}", "{#.99999999999999999999}", "{#+.2E%}", "{x}", "a{}b{#}c", "{#E}", "{#%}"}
 	for _, t := range tmpls {
